@@ -146,7 +146,7 @@ def run(chk):
     mc, _ = with_oracle(chk, texts)
     impl = chk.run_impl([("clparse", [t]) for t in texts])
     model = chk.run_model(mc)
-    chk.compare("truncation-points", mc, impl, model)
+    chk.compare("truncation-points", mc, impl, model, spec=False)
     for (es, t), i in zip(cut, impl):
         if not i.startswith("ok"):
             continue
@@ -169,7 +169,7 @@ def run(chk):
     mc, _ = with_oracle(chk, mut)
     impl = chk.run_impl([("clparse", [t]) for t in mut])
     model = chk.run_model(mc)
-    chk.compare("malformed", mc, impl, model)
+    chk.compare("malformed", mc, impl, model, spec=False)
     for t, i in zip(mut, impl):
         if i.startswith("ok") and count_entries(i) < headers(t):
             chk.violate({"kind": "property", "case": lib.show_case(("clparse", [t])), "impl": i[:1500], "header_lines": headers(t),
